@@ -33,7 +33,11 @@ class LinguaMakoExtractor(Extractor, MessageExtractor):
             yield from self.process_file(file_)
 
     def process_python(self, code, code_lineno, translator_strings):
-        source = code.getvalue().strip()
+        text = code.getvalue()
+        source = text.strip()
+        # code_lineno is the line of the empty line placed in front of the
+        # code; account for the lines stripped off ahead of the source
+        code_lineno += text[: len(text) - len(text.lstrip())].count("\n")
         if source.endswith(":"):
             if source in ("try:", "else:") or source.startswith("except"):
                 source = ""  # Ignore try/except and else
